@@ -224,10 +224,52 @@ def _nested(extra):
     return out
 
 
+def bigm_sweep(res):
+    """'needs bounds it does not have': an implication / disjunction over a comparison of a variable that lacks the bound the big-M
+    linearisation needs must end in a 500-class failure naming the remedy when cvt:bigM is not given, and must convert when it is
+    (or when the bound exists). Complete sweep over form x bound kind x comparison x {cvt:bigM given or not} x rhs sign."""
+    from fractions import Fraction as F
+    INF = nl.INF
+    out = []
+    for form in ("impl", "or"):
+        for bound, (lb, ub) in (("free", (-INF, INF)), ("lower", (F(0), INF)), ("upper", (-INF, F(9))), ("both", (F(-4), F(9)))):
+            for rel in ("ge", "le", "eq", "lt", "gt"):
+                for bigm in (False, True):
+                    for rhs in (F(5), F(-3, 2)):
+                        m = nl.Model()
+                        m.vars = [dict(lb=lb, ub=ub, int=False), dict(lb=F(0), ub=F(1), int=True)]
+                        cmpx = ("cmp", rel, ("var", 0), ("num", rhs))
+                        m.lcons = [("impl", ("cmp", "eq", ("var", 1), ("num", F(1))), cmpx, ("lconst", 1))] if form == "impl" else [("or", cmpx, ("cmp", "ge", ("var", 1), ("num", F(1))))]
+                        m.objs = [dict(sense=0, lin={0: F(1)}, expr=None)]
+                        n, _, _ = nl.normalize(m)
+                        nlb = nl.emit(n, fmt="text")
+                        cfg = conv.cfg_lines(gen_acc("none")) + solver_cfg("ok")
+                        opts = ["cvt:bigM=10000"] if bigm else []
+                        r = vd.run(nlb, cfg, options=opts, ampl=True, timeout=60)
+                        needs = (rel in ("ge", "gt", "eq") and lb == -INF) or (rel in ("le", "lt", "eq") and ub == INF)
+                        expect_fail = needs and not bigm
+                        code = r.sol.code if r.sol else None
+                        msg = " ".join(r.sol.message) if r.sol else (r.err + r.out)
+                        mentions = "bigm" in msg.lower()
+                        failed = code is not None and 500 <= code <= 999
+                        desc = "%s, x in [%s, %s], x %s %s, %s" % (form, lb, ub, rel, rhs, "cvt:bigM=10000" if bigm else "no cvt:bigM")
+                        res.case(common.h(["bigm", desc]), True, labels=["bigm-sweep", "bigm-expect-failure" if expect_fail else "bigm-expect-conversion"])
+                        if r.signal or r.sanitizer:
+                            out.append(("crash in the big-M sweep (%s): %s" % (desc, common.crash_head(r.err)), desc))
+                        elif expect_fail and not (failed and mentions):
+                            out.append(("a comparison that needs a bound the variable does not have was not diagnosed (%s): .sol code %s, message %r" % (desc, code, msg[:160]), desc))
+                        elif not expect_fail and (failed or code is None):
+                            out.append(("a convertible model ended in a failure (%s): .sol code %s, message %r" % (desc, code, msg[:160]), desc))
+    return out
+
+
 def run(ctx):
     common.build("build/vd/vdriver")
     known = {k for k, r in common.load_known(ctx.pid).items() if r.get("status") == "known"}
     res = hyp.run_property(ctx, cases(), judge, ctx.pick(8000, 300000), known_keys=known, time_budget=ctx.pick(300, 3600))
+    for desc, what in bigm_sweep(res):
+        path = common.save_replay(ctx.pid, {"bigm_sweep": what})
+        res.violation(desc, None, path)
     return common.finish(ctx, res, "exploration", RULE,
                          ["termination is not decided: a 60 s guard expiry is counted as inconclusive",
                           "my .sol parser (verif/solfile.py) defines 'well-formed'",
@@ -238,7 +280,11 @@ def replay(ctx, path):
     common.build("build/vd/vdriver")
     c = json.load(open(path))
     res = common.Result()
-    v = judge_raw(c, res)
+    if "bigm_sweep" in c:
+        bad = [d for d in bigm_sweep(res) if d[1] == c["bigm_sweep"]]
+        v = (bad[0][0],) if bad else None
+    else:
+        v = judge_raw(c, res)
     if v:
         print("VIOLATION property=%s replay=%s" % (ctx.pid, path))
         print("  " + v[0][:800])
